@@ -752,8 +752,11 @@ class DBUDSServer(UDSServer):
                     query += f"json_extract(s.properties_pre, '$.{key}') IS NULL AND "
                 else:
                     query += f"json_extract(s.properties_pre, '$.{key}') = ? AND "
+                    # json_extract yields strings unquoted and arrays / objects as minified JSON
                     parameters.append(
-                        value if isinstance(value, int | float) else json.dumps(value)
+                        value
+                        if isinstance(value, int | float | str)
+                        else json.dumps(value, separators=(",", ":"))
                     )
 
         query += "r.request_pdu = ? "
